@@ -18,6 +18,46 @@ CLAIMED['C13'] = dict(
    text="Theorems about the five-way root-metadata merge of _graft as modelled (md_merge): 'no metadata' changes nothing; receiver-only entries always survive; default/copy keep every receiver entry; for each donor entry the result is the shared donor object (default on absent key, overwrite always) or a fresh object with equal content under the same key (copy on absent key, copyover always); graft applies exactly this merge to the receiving root and leaves every other root (the donor's included) untouched; cut is graft onto a fresh empty root. Correspondence: all 64 pairs of key sets over 3 names x 5 options x donor node/root x cut options exhaustively plus random operation sequences, compared with object identities of the live Metadata objects.",
    note=TB + "Hypotheses: donor root's metadata dict has distinct keys and each Metadata is named like its key (what Node.metadata's setter produces). Object identity of copies is modelled by fresh numeric ids allocated in donor-key order.",
    technique="Coq proof over assoc-list model of the merge + exhaustive small-scope correspondence", ref="5 C13")
+
+TREE = ("Shared executable model of write.py / utils.py / read.py (coq/Model/H5.v, Emd.v, EmdList.v, Reader.v) with class payloads as "
+        "templates parameterised by content tokens; tied to /repo on every run by evaluating the scenarios in Coq (vm_compute) against "
+        "a raw-h5py walk of the files the real emdfile wrote, plus constant tables generated from the sources. ")
+CLAIMED['C01'] = dict(
+   text="Writer half proved for every tree (structural induction over the nested tree type): the recursive writer stores each child's whole branch inside its parent's group (write_tree = enc), a saved file is the header plus one top-level group holding the encoded tree, each node is the HDF5 group at /<root name><node path> with its class tags, and a node's group links exactly its own datasets/bundle and its children. Reader half (populate/read on the file) by correspondence on exhaustive small trees x class assignments + random trees, and an independent oracle comparing paths/classes of the raw file and of the read-back tree.",
+   note=TB + TREE + "PARTIAL: reader half not proved. ok_tree hypothesis = sibling names distinct and not clashing with the parent's own datasets (format limitation F18). Modelled not verified: h5py link/attribute semantics, name-ordered iteration.",
+   technique="Coq proof by structural induction (writer refines an encoding function) + vm_compute correspondence", ref="5 C01")
+CLAIMED['C05'] = dict(
+   text="Proved layout facts about everything the writer model produces: valid group-type tags (from the generated vocabulary) and python_class on every node group at every path, metadata in a tagged bundle of tagged typed items, the written header passing the package detector, program/user from the session configuration, the bundle created by the append path tagged, no scratch group after a replace (C09/C18 theorems). The full validator (incl. Array data/dim datasets and every dispatch branch, every mode, histories, author settings) runs as an h5py-only oracle after every successful save of ~600 scenarios, with the package detector/version query.",
+   note=TB + TREE + "PARTIAL: no single theorem covers the whole dispatcher; Array dim-dataset clauses are checked by the oracle (templates) and in C02/C14.",
+   technique="Coq lemmas over the writer model + validator oracle on real files + vm_compute correspondence", ref="5 C05")
+CLAIMED['C07'] = dict(
+   text="For each of the selection cases the theorem gives the COMPLETE content of the fresh file as a closed term: root target (whole tree / root alone), inner target with tree=False (root + node alone), tree=True (root + node with its whole encoded branch, relative shape unchanged), tree=None (root + only the branch below the node attached at root level); the root always carries its own name and all its metadata; an unrooted node is wrapped in <name>_root. 'Nothing outside the selection' is the equality. Correspondence: every node x 3 options of random trees, up to 40 saves from the same live objects per scenario.",
+   note=TB + TREE + "Hypotheses: the target is reachable at tp in the runtime tree (C12), names do not clash with the root's own bundle. Payload content by token.",
+   technique="Coq proof (equational, on top of write_tree = enc) + vm_compute correspondence", ref="5 C07")
+CLAIMED['C08'] = dict(
+   text="Proved: over the open-mode table generated from the sources every h5py.File( call on the read path uses 'r'; the tree reader is compositional (what the full read holds below a node for each tagged child is exactly what reading that child alone plus its branch returns); a missing path component is an error; a leading slash is ignored. Correspondence + oracle: every node path x 3 options x leading slash, missing paths, multi-root files, sha256 before/after each read.",
+   note=TB + TREE + "PARTIAL: the per-option selection of read() is tied by correspondence; byte immutability under open mode 'r' is HDF5's (trusted).",
+   technique="Coq proof over generated open-mode table + reader compositionality lemma + vm_compute correspondence", ref="5 C08")
+CLAIMED['C09'] = dict(
+   text="Proved for every runtime tree and file group: append mode only EXTENDS the file tree (every object already there is still at its path with the same attributes and datasets, at any depth); a runtime child the file lacks is written with its whole branch at its runtime path; the append-over replace step gives the node the runtime node's own content (tags, metadata, datasets), keeps the data children that exist only in the file, leaves siblings untouched and no scratch group. The full dispatcher (which branch for which target/emdpath/tree option, root metadata, sequences) is tied by correspondence on ~700 pair/sequence scenarios and by an independent reference model of union/replace used as oracle.",
+   note=TB + TREE + "PARTIAL: composition over the dispatcher not proved. str.replace path arithmetic of write.py modelled path-wise.",
+   technique="Coq proof (extension order by nested induction; replace-step specification) + reference-model oracle + vm_compute correspondence", ref="5 C09")
+CLAIMED['C10'] = dict(
+   text="Frame theorem over the WHOLE append dispatcher (all branches, by case analysis): a save into an existing file changes only the targeted top-level tree; every other tree and the header attributes (UUID included) are equal before and after; a new root name adds exactly one top-level tree; a read without a path on a multi-root file returns the root names. Correspondence + oracle on histories of 2-6 saves incl. list/tuple saves mixing roots, rooted nodes, unrooted nodes, arrays, dicts.",
+   note=TB + TREE + "PARTIAL: 'each tree equals its source' and the list storage rules are tied by correspondence + oracle (the list path is modelled in EmdList.v).",
+   technique="Coq frame proof by exhaustive case analysis of the dispatcher model + vm_compute correspondence", ref="5 C10")
+CLAIMED['C11'] = dict(
+   text="Theorems over the mode tables and the prelude order GENERATED from write.py on every run: write mode onto anything existing fails and returns the slot unchanged; an unknown mode is rejected before anything is touched whatever the other arguments (also for lists); overwrite equals the same save into a fresh path; append/append-over to nothing equals write; with emdpath write/overwrite behave as append. Correspondence + oracle: every spelling + invalid strings x 6 kinds of old content x emdpath x tree x 6 input kinds, sha256 for byte-for-byte.",
+   note=TB + TREE + "The filesystem is modelled as a slot (Absent / raw bytes token / HDF5 object).",
+   technique="Coq proof by case analysis over source-generated tables + exhaustive small-scope correspondence", ref="5 C11")
+CLAIMED['C18'] = dict(
+   text="Fault model = budget of HDF5 mutations still allowed to succeed; theorems quantify over EVERY budget: in append mode the file group is only extended whether the save completes or fails at any point; a failing append-over replace step (move / write new / any relink / final delete) restores the parent group EXACTLY (no _tmp_ scratch); likewise a failing root-metadata entry. The strict statement for append-over is refuted by a vm_compute witness (known finding: not transactional). Tie: real saves with the k-th h5py mutation failing (all k for small cases, all move/link/delete steps always), natural failures, compared with the model under SOME budget on the pre-existing nodes; oracle = raw walk + targeted read of every pre-existing path.",
+   note=TB + TREE + "PARTIAL: node creation is atomic in the model (real partial nodes are removed by the rollback or are new nodes the property does not speak about); single fault per save; crashes/power loss not modelled. Known finding ao-node-replaced-before-failure.",
+   technique="Coq proof over a budgeted state-transformer model (all fault points) + fault-injection correspondence", ref="5 C18")
+CLAIMED['C19'] = dict(
+   text="Effect model of what write() does to live objects (temporary root, metadata names, list iteration) on the C12 forest model; theorems: the public view of every object is unchanged by saving an unrooted node or a list, on success and on failure, and the node is still unrooted. Oracle: before/after snapshots (shape, names, roots, payload tokens, metadata keys/names/identities, list contents) around every save incl. failing ones, re-adding unrooted nodes to a tree, twin saves to two fresh paths compared.",
+   note=TB + TREE + "PARTIAL: the effect model is tied to the code by the live-object snapshots (oracle) rather than by a Coq-evaluated correspondence; repeatability rests on the writer model being a function plus the twin-save oracle.",
+   technique="Coq proof over an effect model + live-object snapshot oracle + vm_compute correspondence of file contents", ref="5 C19")
 PENDING = {}
 props = [json.loads(l) for l in open(os.path.join(V, 'properties.jsonl'))]
 checks, na = [], []
